@@ -291,7 +291,7 @@ func c05PoolBFS(driver string, depth int) vh.Unit {
 			Events: func(w interface{}) []string {
 				var evs []string
 				for _, k := range c05Kinds {
-					evs = append(evs, "update A "+k, "update B "+k, "addnode W "+k, "withdraw W "+k)
+					evs = append(evs, "update A "+k, "update B "+k, "addnode W "+k, "withdraw W "+k, "updold A "+k)
 				}
 				return append(evs, "tick 16m")
 			},
@@ -315,6 +315,10 @@ func c05PoolBFS(driver string, depth int) vh.Unit {
 					idname = id.NodeID
 					req := pool.UpdateRequest{}
 					_, err = w.pw.Pool.Update(context.Background(), id.SignNode("vipnode_update", n, req), id.NodeID, n, req)
+				case "updold": // signed in the deprecated format (old agents)
+					idname = A.NodeID
+					req := pool.UpdateRequest{Peers: []string{}, BlockNumber: 3}
+					_, err = vh.NewLegacyUpdateCall(A, n, req).Invoke(w.pw, context.Background())
 				case "addnode":
 					idname = W.Wallet
 					err = w.pw.Payment.AddNode(context.Background(), W.SignWallet("pool_addNode", n, A.NodeID), W.Wallet, n, A.NodeID)
